@@ -10,21 +10,21 @@ CLAIMED = {
             "trusted: the two `tree` axioms (a file set is empty iff the value has no leaf; follows from the leaf-wise definition by induction, not mechanised), termination of _flatten's structural recursion, Fs interface (consistent snapshot), finite real mtimes, sha1 as a function of the text, z3, pyvc's encoding of the Python subset", "4 C01"),
     "C02": ("proof", "schedule/_schedule/_cached_schedule are proved, for every DAG, backend answer and file state, to return Spec on exactly the dependency cone (least closed set, by the arbitrary-superset argument) and to call the submit callback exactly for the targets that need it, once, after their prerequisites, naming exactly the incomplete direct dependencies (ghost submission log). The three real callbacks and backend.status are proved to refine the callback interfaces; filter_names/endpoints select the requested targets.",
             "trusted: definitional axiom of Spec over the acyclic rank (Lean meta-lemma), fnmatch as an uninterpreted relation, scheduler hands out ids not currently tracked, z3, pyvc encoding", "4 C02"),
-    "C03": ("proof", "Graph.from_targets is proved to build exactly the path-induced relation, its inverse (no empty entries), the producer map and the unresolved set; endpoints() and _norm_path == Canon are proved. `gwf info` printing is not under contract.",
-            "trusted: os.path algebra (isabs/join/abspath/normpath), attrs-generated Graph constructor, z3, pyvc encoding", "4 C03"),
-    "C04": ("proof", "from_targets returns normally only for single-producer, resolved, acyclic workflows (three-colour DFS with ghost finishing times exported as rank) and each of the three errors is proved to name a defect that is really present; run/clean/touch/cancel are proved to have no effect (no submission, removal, touch, cancellation, state-file write) when graph building fails. Termination and recursion depth are not mechanised.",
-            "trusted: as C03; termination of the DFS argued on paper; deep recursion (RecursionError on ~1000-deep chains) is NOT decided by these contracts", "4 C04"),
+    "C03": ("other", "mixed: Graph.from_targets is proved to build exactly the path-induced relation, its inverse (no empty entries), the producer map and the unresolved set; endpoints() and _norm_path == Canon are proved, for every set of targets, spelling and definition order. The last clause (`gwf info` reports these same relations) has no deductive contract (the info plugin only formats graph.dependencies / graph.dependents): it is decided by the bounded stand-in cli-info (real command line, 6 workflows incl. alias spellings, every single-target selection).",
+            "trusted: os.path algebra (isabs/join/abspath/normpath), attrs-generated Graph constructor, z3, pyvc encoding; bounded: cli-info (6 workflows <= 4 targets)", "4 C03"),
+    "C04": ("other", "mixed: from_targets returns normally only for single-producer, resolved, acyclic workflows (three-colour DFS with ghost finishing times exported as rank) and each of the three errors is proved to name a defect that is really present; run/clean/touch/cancel are proved to have no effect (no submission, removal, touch, cancellation, state-file write) when graph building fails. The last clause (any size and depth, no crash) is NOT within reach of these contracts (no stack-depth or termination obligations): it is decided, bounded, by the stand-in workflow-sizes (empty and single-target workflows through 15 command lines; one chain of 3000 targets through from_targets, schedule, dfs, touch_workflow). Known finding F04: RecursionError on chains of about 1000 targets and more (reported as KNOWN-FINDING).",
+            "trusted: as C03; termination of the DFS argued on paper; bounded: workflow-sizes (sizes 0, 1 and one chain of 3000)", "4 C04"),
     "C05": ("proof", "one schedule() serves status, dry run and run: the three real callbacks refine one interface, so the table and the submission log are the same function of the initial state; with a non-submitting callback (status, dry run) the scheduler ghost, the tracked ids and every spec-hash answer are proved unchanged, `gwf run --dry-run` removes no log; filter composition is proved pointwise. Output formatting (print_table/print_summary) and the status command body are not under contract yet.",
             "trusted: click, StatusFilter (8 lines, modelled), endpoint-cover meta-lemma (every target lies in the cone of some endpoint), z3, pyvc encoding", "4 C05"),
     "C06": ("other", "mixed: the first sentence (after a successful drain every cone target with outputs is completed and the second run submits none of them) is a lemma over the verified contracts of schedule / from_targets / submit_backend plus the environment assumptions E1-E5 (job outputs exist with mtime inside the job's run, prerequisites delay the start, nothing else touches files, finished jobs report completed/unknown, clocks monotone): a chain of 7 obligations, the induction over the acyclic rank is lean/Meta.lean. The second sentence (exact re-submission set after one change) is decided by the bounded stand-in cli-rerun-after-one-change (real CLI, fake Slurm that honours afterok).",
             "NOT verified: E1-E5 (they are the property's own premise about the backend); the manual correspondence between the lemma's hypotheses and the contracts' ensures text; bounded: 5 workflows x (modify the source | delete each output)", "4 C06"),
     "C07": ("other", "mixed: TrackingBackend.submit is proved to pass exactly the ids tracked for the given dependencies to ops.submit_target and to track the returned id; SlurmOps/SGEOps/LSFOps.submit_target are proved to call sbatch/qsub/bsub with exactly the afterok / hold_jid / done()&& lists and to return the printed id stripped. The local client and the end-to-end id round trip are checked only by the bounded stand-in ops-command-lines (scripted fake scheduler commands). 'never starts before its prerequisites finished' is a consequence under the schedulers' documented dependency semantics (assumed).",
             "assumed: afterok / hold_jid / done() semantics, subprocess delivers argv unchanged, utils.call's own body; bounded: ops-command-lines (ids 11/12/13, three backends); z3; pyvc encoding", "4 C07"),
-    "C08": ("other", "mixed: TrackingBackend.status == state of the id tracked for the target's name (UNKNOWN when absent), ids loaded from the file written by the previous close, submit overwrites the entry; Slurm merge proved (squeue wins over sacct; no sacct call when accounting is off). The per-scheduler classification tables, line parsing, the 1024-id batching and SGE/LSF/local queries are checked only by the bounded stand-in ops-state-tables (documented state codes through fake squeue/sacct/qstat/bjobs). Local-pool id reuse after a restart is NOT covered (documented assumption).",
-            "assumed: scheduler output formats; ids not reused while tracked (false for a restarted local pool); bounded: ops-state-tables; z3; pyvc encoding", "4 C08"),
+    "C08": ("other", "mixed: TrackingBackend.status == state of the id tracked for the target's name (UNKNOWN when absent), ids loaded from the file written by the previous close, submit overwrites the entry; Slurm merge proved (squeue wins over sacct; no sacct call when accounting is off). The per-scheduler classification tables, line parsing, the 1024-id batching and SGE/LSF/local queries are checked only by the bounded stand-in ops-state-tables (documented state codes through fake squeue/sacct/qstat/bjobs). The local backend across a restart of the worker pool (ids of different pools distinct, after fix F15) is decided by the bounded stand-in local-pool-restart (real pool twice, real clients).",
+            "assumed: scheduler output formats; ids not reused while tracked (schedulers' own guarantee; for the local pool it rests on the wall clock not going backwards across restarts); bounded: ops-state-tables, local-pool-restart; z3; pyvc encoding", "4 C08"),
     "C09": ("proof", "TrackingBackend.submit/close/__exit__, submit_backend, schedule and the run command are proved: a rejected submission leaves no trace (no tracked id, no hash), the hash is recorded only after the backend accepted, and on every exit of `gwf run` after the backend was created - normal, BackendError, OSError at close - the tracked-jobs file holds exactly the backend's ids. A hard kill between two submissions (ids durable only at exit) and torn writes are NOT covered: see level_note.",
             "not decided: process kill between submissions / during json.dump (crash invariants on the state files are not generated yet); trusted: json round trip, scheduler id freshness, z3, pyvc encoding", "4 C09"),
-    "C10": ("other", "mixed: option resolution in submit_backend is proved (backend default < target options, unknown keys dropped, None omitted: whole-dictionary postcondition); clean_logs is called only when clean_logs is truthy and not on a dry run (run command contract). The job scripts themselves (directive per option, quoted cd, set -e before the spec, spec verbatim with trailing newline, log paths) are decided only by the bounded stand-in job-scripts-under-bash, which executes the generated scripts with bash; known finding F11 (LSF placeholder for a None option) is reported as KNOWN-FINDING.",
+    "C10": ("other", "mixed: option resolution in submit_backend is proved (backend default < target options, unknown keys dropped, None omitted: whole-dictionary postcondition); clean_logs is called only when clean_logs is truthy and not on a dry run (run command contract). The job scripts themselves (directive per option, quoted cd, set -e before the spec, spec verbatim with trailing newline, log paths) are decided only by the bounded stand-in job-scripts-under-bash, which executes the generated scripts with bash. (F11, the LSF placeholder for a None option, is fixed in /repo.)",
             "not proved: compile_script line order (no unbounded contract), Workflow.target/template precedence, clean_logs body; assumed: bash and scheduler directive semantics; bounded: job-scripts-under-bash (3 backends x 4 directory names x each default option removed)", "4 C10"),
     "C11": ("proof", "try_handle_task is proved, under a rely/guarantee model of asyncio (every await is an interference point and a possible CancelledError), to create the process only when every dependency is COMPLETED (precondition of create_subprocess_shell, carried across the acquire await by the stability rely) and to end non-completed without a process otherwise.",
             "trusted: asyncio facts (cooperative scheduling, wait(ALL_COMPLETED), cancellation delivery, done is permanent), the rely relation is justified by the contracts of enqueue_task/cancel_task (write-site guarantee) but the counting argument over all coroutines is a meta-step; z3; pyvc encoding", "4 C11"),
